@@ -234,7 +234,8 @@ int vf_run_case(Src &s, Report &r) {
 		for (unsigned mag : mags) if (s.chance(1, 4)) {
 			unsigned t[13]; for (auto &x : t) x = s.u32() & 0x3FFFF;
 			t[0] &= ~0x7Fu;	// function LOP, coding 0
-			Pkt p = mk(tx::triplets(mag, 29, 0, t), K_M29, (int) mag, -1, (int) cyc, 29); p.exempt = true; txv.push_back(p); has_enh = true;
+			unsigned des29 = (t[12] & 3) == 3 ? 1 : (t[12] & 3) == 2 ? 4 : 0;	// M/29/0, /4 (colour maps) or /1 (DRCS colour look-up table)
+			Pkt p = mk(tx::triplets(mag, 29, des29, t), K_M29, (int) mag, -1, (int) cyc, 29); p.exempt = true; txv.push_back(p); has_enh = true;
 		}
 		// per page packet lists for this cycle
 		std::vector<std::vector<Pkt>> plist(pages.size());
@@ -291,7 +292,8 @@ int vf_run_case(Src &s, Report &r) {
 			if (s.chance(1, 5)) {
 				unsigned t[13]; for (auto &x : t) x = s.u32() & 0x3FFFF;
 				t[0] &= ~0x7Fu;
-				plist[pi].push_back(mk(tx::triplets(p.mag, 28, 0, t), K_X28, (int) p.mag, (int) pi, (int) cyc, 28)); has_enh = true;
+				unsigned des28 = (t[12] & 3) == 3 ? 1 : (t[12] & 3) == 2 ? 4 : 0;
+				plist[pi].push_back(mk(tx::triplets(p.mag, 28, des28, t), K_X28, (int) p.mag, (int) pi, (int) cyc, 28)); has_enh = true;
 			}
 		}
 		// schedule
@@ -423,6 +425,24 @@ int vf_run_case(Src &s, Report &r) {
 				return r.fail("C03:uncorrectable-X/26-triplet-shown-as-data", "two bit errors in triplet %d (bits %u and %u): %s: the fetched pages equal neither the fault-free run, nor the run with the enhancement data cut at this triplet, nor a run without this packet (with or without the later X/26 packets), nor a run without this transmission of the page; against the cut packet: %s; against the run without this and the later X/26 packets: %s",
 					q, x1, x2, describe(i, fb).c_str(), first_page_diff(got, cand).c_str(), first_page_diff(got, dropLater).c_str());
 			}
+		}
+	}
+
+	// ---------- class 2d: uncorrectable triplet in an X/28 or M/29 packet (colour maps, character sets, DRCS colour look-up table): the packet is ignored ----------
+	for (int i = 0; i < n; ++i) {
+		if (txv[i].kind != K_X28 && txv[i].kind != K_M29) continue;
+		bool haveW = false; Snap without;
+		for (int q = 0; q < 13; ++q) {
+			unsigned x1 = s.pick(24), x2 = s.pick(23); if (x2 >= x1) ++x2;
+			memcpy(fb, txv[i].b, 42);
+			fb[3 + 3 * q + x1 / 8] ^= 1 << (x1 & 7); fb[3 + 3 * q + x2 / 8] ^= 1 << (x2 & 7);
+			run_tx(txv, nullptr, i, fb, got); ++runs;
+			r.cls("faults:double-bit-X/28-M/29-triplet");
+			if (same_pages(got, ref)) continue;
+			if (!haveW) { std::fill(drop.begin(), drop.end(), 0); drop[i] = 1; run_tx(txv, &drop, -1, nullptr, without); haveW = true; }
+			if (same_pages(got, without)) continue;
+			return r.fail("C03:uncorrectable-X/28-M/29-triplet-shown-as-data", "two bit errors in triplet %d (bits %u and %u): %s: the fetched pages equal neither the fault-free run nor the run without this packet; against the fault-free run: %s; against the run without the packet: %s",
+				q, x1, x2, describe(i, fb).c_str(), first_page_diff(got, ref).c_str(), first_page_diff(got, without).c_str());
 		}
 	}
 
